@@ -92,6 +92,9 @@ pub fn name_variants() -> Vec<(String, Vec<u8>)> {
         ("name with an empty RDN set".into(), seq(&[tlv(0x31, &[])])),
         ("name with multi-valued RDN".into(), seq(&[set_of(&[atv(&[2, 5, 4, 3], T_UTF8, b"a"), atv(&[2, 5, 4, 10], T_UTF8, b"b")])])),
         ("name with repeated type".into(), seq(&[set_of(&[atv(&[2, 5, 4, 11], T_UTF8, b"a")]), set_of(&[atv(&[2, 5, 4, 11], T_UTF8, b"b")])])),
+        ("name with the same attribute (type and value) twice, adjacent".into(), seq(&[set_of(&[atv(&[2, 5, 4, 10], T_UTF8, b"o")]), set_of(&[atv(&[2, 5, 4, 11], T_UTF8, b"Operations")]), set_of(&[atv(&[2, 5, 4, 11], T_UTF8, b"Operations")]), set_of(&[atv(&[2, 5, 4, 3], T_UTF8, b"c")])])),
+        ("name with the same attribute (type and value) twice, apart".into(), seq(&[set_of(&[atv(&[2, 5, 4, 11], T_UTF8, b"u")]), set_of(&[atv(&[2, 5, 4, 3], T_UTF8, b"c")]), set_of(&[atv(&[2, 5, 4, 11], T_UTF8, b"u")])])),
+        ("name with the same type and text in two string types".into(), seq(&[set_of(&[atv(&[2, 5, 4, 11], T_UTF8, b"u")]), set_of(&[atv(&[2, 5, 4, 11], T_PRINTABLE, b"u")])])),
         ("name with NumericString value".into(), seq(&[set_of(&[atv(&[2, 5, 4, 5], 18, b"12345")])])),
         ("name with invalid UTF8".into(), seq(&[set_of(&[atv(&[2, 5, 4, 3], T_UTF8, &[0xff, 0xfe])])])),
         ("name with BMP odd length".into(), seq(&[set_of(&[atv(&[2, 5, 4, 3], T_BMP, &[0, 65, 0])])])),
